@@ -194,7 +194,12 @@ func (fv *FuncVC) applyContract(con *Contract, callee *ssa.Function, c *ssa.Call
 	env := &Env{fv: fv, st: pre, old: pre, vars: map[string]*Val{}, allocOld: allocOld}
 	for i, n := range names {
 		if i < len(args) {
-			env.vars[n] = args[i]
+			a := args[i]
+			if a.Place != nil {
+				// address of a sub-location passed to a contracted callee: identity only
+				a = &Val{T: fv.placeToValue(a.Place, a.Typ), Typ: a.Typ}
+			}
+			env.vars[n] = a
 		}
 	}
 	if callee != nil {
@@ -519,6 +524,9 @@ func (fv *FuncVC) havocMod(mod map[string]bool, args []*Val) {
 			if fv.heapSort[name] == "" {
 				continue // heap never observed in this function: nothing to forget
 			}
+			if name == "LOCK" {
+				continue // A-LOCKNEUTRAL: an un-contracted callee returns with the locks it was called with
+			}
 			fv.heapHavoc(name)
 			fv.afterHeapChange(name)
 		}
@@ -677,6 +685,8 @@ func (fv *FuncVC) builtin(b *ssa.Builtin, c *ssa.CallCommon, args []*Val, resT t
 	case "close":
 		fv.note("channel close not modelled")
 		return &Val{Typ: resT}
+	case "ssa:deferstack":
+		return &Val{T: "0", Typ: resT}
 	case "recover":
 		return fv.havocVal("recover", resT)
 	case "ssa:wrapnilchk":
